@@ -142,15 +142,18 @@ func genCrashShape(repo string) (string, error) {
 	for _, c := range sfCalls(sdo) {
 		switch sfChain(c.Fun) {
 		case "bp.store.SaveGroup":
-			storeOrder = append(storeOrder, "KGroup")
+			storeOrder = append(storeOrder, "KSave KGroup")
 		case "bp.store.SaveShare":
-			storeOrder = append(storeOrder, "KShare")
-		case "bp.store.SaveKeyPair", "bp.store.Reset":
+			storeOrder = append(storeOrder, "KSave KShare")
+		case "bp.store.Reset":
+			// extracted as data: the Coq obligations judge it (no destructive call before the writes)
+			storeOrder = append(storeOrder, "KReset")
+		case "bp.store.SaveKeyPair":
 			return tb("storeDKGOutput calls %s", sfChain(c.Fun))
 		}
 	}
-	if len(storeOrder) != 2 {
-		return tb("storeDKGOutput does not call SaveGroup and SaveShare exactly once each: %v", storeOrder)
+	if len(storeOrder) == 0 {
+		return tb("storeDKGOutput makes no key-store call")
 	}
 	// every caller of storeDKGOutput is reached from onDKGCompleted only (the hand-over)
 	// Reset
